@@ -361,33 +361,44 @@ Section NewIsDefine.
   (* the static side conditions (see [new_domain] below for the boolean ones) *)
   Hypothesis Hg_names : forallb (fun k => negb (pseudo_attr (k_name k))) g = true.
 
-  (* a heap that differs only in cells [mheap] does not speak about is as good *)
+  (* a heap that differs only in cells [mheap] does not speak about is as good (the content of a heap dict is
+     only spoken about for the objects of the class body, whose names contain ':') *)
   Lemma mheap_transfer gg ex an h h' ms :
-    (forall o a, str_in a spec_attrs = true -> h' o a = h o a) ->
+    (forall o a, str_in a spec_attrs = true -> pystr_eqb a n_dict_content = false -> h' o a = h o a) ->
+    (forall o, pseudo_attr o = true -> h' o n_dict_content = h o n_dict_content) ->
     (forall x kx a, find_klass gg x = Some kx -> In a (map fst (k_own kx)) -> h' x a = h x a) ->
     mheap gg ex an h ms -> mheap gg ex an h' ms.
   Proof.
-    intros Hs Hcls M.
-    assert (Hs' : forall o a, In a spec_attrs -> h' o a = h o a).
-    { intros o a Ha. apply Hs. apply str_in_In. exact Ha. }
+    intros Hs Hd Hcls M.
+    assert (Hs' : forall o a, In a spec_attrs -> a <> n_dict_content -> h' o a = h o a).
+    { intros o a Ha Hne. apply Hs; [apply str_in_In; exact Ha|]. apply pystr_eqb_neq. exact Hne. }
+    assert (Hpm : forall n, pseudo_attr (mobj n) = true) by (intro n; reflexivity).
+    assert (Hpt : forall n, pseudo_attr (tyobj n) = true) by (intro n; reflexivity).
+    assert (Hsel : forall o a, pseudo_attr o = true -> In a spec_attrs -> h' o a = h o a).
+    { intros o a Hp Ha. destruct (pystr_eqb a n_dict_content) eqn:E.
+      - apply pystr_eqb_spec in E. subst a. apply Hd. exact Hp.
+      - apply Hs; [apply str_in_In; exact Ha|exact E]. }
     destruct M as [Menv M1 M2 M3 M4 M5 M6 M7 M8 M9 M11]. constructor.
     - destruct Menv as [Hc Hadl Hm]. constructor.
-      + intros o a Ha. rewrite Hs'; [apply Hc; exact Ha|]. apply in_or_app. left. apply str_in_In. exact Ha.
-      + rewrite Hs' by (vm_compute; tauto). exact Hadl.
+      + intros o a Ha. rewrite Hs'; [apply Hc; exact Ha| |].
+        * apply in_or_app. left. apply str_in_In. exact Ha.
+        * intro; subst a. discriminate.
+      + rewrite Hs' by (try discriminate; vm_compute; tauto). exact Hadl.
       + intros x kx n Hk Hn Hp Hsp. rewrite (Hcls x kx n Hk Hn). apply (Hm x kx n Hk Hn Hp Hsp).
-    - intros n m H. rewrite Hs' by (vm_compute; tauto). apply (M1 n m H).
-    - intros n m H. rewrite Hs' by (vm_compute; tauto). apply (M2 n m H).
-    - intros n v H. rewrite Hs' by (vm_compute; tauto). apply (M3 n v H).
-    - intro n. rewrite Hs' by (vm_compute; tauto). apply M4.
-    - intros n a Ha. rewrite Hs'; [apply (M5 n a Ha)|]. cbn [In] in Ha. vm_compute. intuition (subst; tauto).
-    - intro n. destruct (M6 n) as [A B]. split; [rewrite Hs' by (vm_compute; tauto); exact A|].
-      intros a Ha. rewrite Hs'; [apply (B a Ha)|]. cbn [In] in Ha. vm_compute. intuition (subst; tauto).
-    - destruct M7 as [A B]. split; [rewrite Hs' by (vm_compute; tauto); exact A|].
-      intros a Ha. rewrite Hs'; [apply (B a Ha)|]. cbn [In] in Ha. vm_compute. intuition (subst; tauto).
-    - rewrite Hs' by (vm_compute; tauto). exact M8.
-    - rewrite Hs' by (vm_compute; tauto). exact M9.
-    - intros x kx n m Hk Hin. destruct (M11 x kx n m Hk Hin) as [A B]. split; [rewrite Hs' by (vm_compute; tauto); exact A|].
-      intros v Hv. rewrite Hs' by (vm_compute; tauto). apply (B v Hv).
+    - intros n m H. rewrite Hsel by (try apply Hpm; vm_compute; tauto). apply (M1 n m H).
+    - intros n m H. rewrite Hsel by (try apply Hpm; vm_compute; tauto). apply (M2 n m H).
+    - intros n v H. rewrite Hsel by (try apply Hpm; vm_compute; tauto). apply (M3 n v H).
+    - intro n. rewrite Hsel by (try apply Hpm; vm_compute; tauto). apply M4.
+    - intros n a Ha. rewrite Hsel; [apply (M5 n a Ha)|apply Hpm|]. cbn [In] in Ha. vm_compute. intuition (subst; tauto).
+    - intro n. destruct (M6 n) as [A B]. split; [rewrite Hsel by (try apply Hpt; vm_compute; tauto); exact A|].
+      intros a Ha. rewrite Hsel; [apply (B a Ha)|apply Hpt|]. cbn [In] in Ha. vm_compute. intuition (subst; tauto).
+    - destruct M7 as [A B]. split; [rewrite Hsel by (try reflexivity; vm_compute; tauto); exact A|].
+      intros a Ha. rewrite Hsel; [apply (B a Ha)|reflexivity|]. cbn [In] in Ha. vm_compute. intuition (subst; tauto).
+    - rewrite Hs' by (try discriminate; vm_compute; tauto). exact M8.
+    - rewrite Hs' by (try discriminate; vm_compute; tauto). exact M9.
+    - intros x kx n m Hk Hin. destruct (M11 x kx n m Hk Hin) as [A B].
+      split; [rewrite Hsel by (try apply pseudo_member; vm_compute; tauto); exact A|].
+      intros v Hv. rewrite Hsel by (try apply pseudo_member; vm_compute; tauto). apply (B v Hv).
   Qed.
 
   (* ---------------------------------------------------------------- what isinstance says about the entries *)
@@ -1065,5 +1076,95 @@ Section NewIsDefine.
         rewrite class_attr_none; [|exact G1|].
         * rewrite P1. cbn [negb tl_str]. exact Hg.
         * cbn [kc k_own]. rewrite alist_has_str_in. exact En.
+  Qed.
+
+  (* ---------------------------------------------------------------- the attributes set on the class object *)
+
+  Definition late_attrs : list pystr := map s2p ["_constants"; "_required"; "_field_by_name"]%string.
+
+  Lemma late_facts a : In a late_attrs ->
+    str_in a spec_attrs = false /\ match a with x :: _ => N.eqb x us | [] => false end = true /\
+    pystr_eqb a (s2p "__annotations__") = false.
+  Proof. intro H. unfold late_attrs in H. cbn [map In] in H. repeat (destruct H as [<-|H]; [repeat split; reflexivity|]). destruct H. Qed.
+
+  (* the names of the fields of the new class (own and inherited) are ordinary names *)
+  Lemma all_field_names mro ms n : same_members ms -> existsb bad_field_name names = false ->
+    In n (map fst (v_fields_of_mro (kc mro ms :: g) mro)) -> bad_field_name n = false /\ pseudo_attr n = false.
+  Proof.
+    intros Hs Hgood Hin. destruct (mro_fold_keys _ _ _ _ Hin) as [x [_ Hx]].
+    destruct (pystr_eqb x c) eqn:E.
+    - apply pystr_eqb_spec in E. subst x. rewrite own_of_kc_c, Hs in Hx. destruct (name_facts n Hx Hgood Hnames_plain) as [F1 [_ F3]]. split; assumption.
+    - rewrite own_of_kc in Hx by (intro; subst; rewrite pystr_eqb_refl in E; discriminate).
+      destruct (own_of_names x n Hx) as [P1 [_ P3]]. split; assumption.
+  Qed.
+
+  Lemma cheap_set_late mro ms an h a v : same_members ms -> existsb bad_field_name names = false -> In a late_attrs ->
+    cheap mro ms an h -> cheap mro ms an (heap_set h c a v).
+  Proof.
+    intros Hs Hgood Ha [M Hann Hget]. destruct (late_facts a Ha) as [L1 [L2 L3]].
+    assert (Hne : forall n, bad_field_name n = false -> n <> a).
+    { intros n Hb E. subst n. unfold bad_field_name in Hb. apply orb_false_iff in Hb as [Hb _]. congruence. }
+    constructor.
+    - apply (mheap_transfer _ _ _ h); [| |  |exact M].
+      + intros o a' Ha' _. apply heap_set_other_attr. intro; subst a'. congruence.
+      + intros o Hp. apply heap_set_other_obj. intro; subst o. congruence.
+      + intros x kx a' Hk Hin. apply heap_set_other_attr. apply Hne.
+        rewrite find_klass_kc in Hk. destruct (pystr_eqb c x).
+        * inversion Hk; subst kx. cbn [kc k_own] in Hin. rewrite Hs in Hin. apply (name_facts a' Hin Hgood Hnames_plain).
+        * destruct (Hg_members x kx Hk) as [_ Hb]. rewrite forallb_forall in Hb. apply negb_true_iff. apply Hb. exact Hin.
+    - rewrite heap_set_other_attr; [exact Hann|]. intro E. rewrite <- E in L3. discriminate.
+    - intros n v' Hg. rewrite heap_set_other_attr; [apply Hget; exact Hg|]. apply Hne.
+      apply alist_get_In_fst in Hg. apply (all_field_names mro ms n Hs Hgood Hg).
+  Qed.
+
+  (* all_fields = set(bases_required + fields) if bases_params else fields; default_required = list(all_fields):
+     evaluated, never used (cls_dict always has "_required" by then) *)
+  Lemma new_all_fields h bp : exists v,
+    (t <- StructMeta_new__set_all_fields so X h (v_params bp) (v_names (bases_required bp)) (v_names names) ;;
+     StructMeta_new__set_default_required so X h t) = Ok v.
+  Proof.
+    unfold StructMeta_new__set_all_fields, StructMeta_new__set_default_required, v_params, v_names.
+    rewrite !deref_dict, !deref_list. cbn [bind py_truthy]. rewrite add_lists. cbn [bind]. rewrite deref_list, <- map_app.
+    fold (v_strs (bases_required bp ++ names)). rewrite set_of_list. cbn [bind].
+    match goal with |- context [if ?b then _ else _] => destruct b end; cbn [bind].
+    - rewrite ?deref_set. cbn [dv_list_of dv_iter bind]. eexists. reflexivity.
+    - rewrite ?deref_list. cbn [dv_list_of dv_iter bind]. eexists. reflexivity.
+  Qed.
+
+  Lemma pseudo_app a b : pseudo_attr (a ++ b) = pseudo_attr a || pseudo_attr b.
+  Proof. unfold pseudo_attr. apply existsb_app. Qed.
+
+  Lemma constsobj_plain : pseudo_attr constsobj = false.
+  Proof. unfold constsobj, newdict_name. rewrite !pseudo_app, Hc_plain. reflexivity. Qed.
+
+  Lemma constsobj_not_c : constsobj <> c.
+  Proof.
+    unfold constsobj, newdict_name. intro E. apply (f_equal (@length N)) in E. rewrite !app_length in E.
+    change (length (s2p ".")) with 1%nat in E. change (length (s2p "_constants")) with 10%nat in E. lia.
+  Qed.
+
+  Hypothesis Hconsts_fresh : find_klass g constsobj = None.
+
+  (* clsobj._constants = {} : a new dict of the heap *)
+  Lemma new_constants_dict mro ms an h : same_members ms -> existsb bad_field_name names = false ->
+    cheap mro ms an h -> h constsobj n_dict_content = None ->
+    exists h', StructMeta_new__set_attr__constants so X h (ref c) = Ok h' /\ cheap mro ms an h' /\
+               h' c (s2p "_constants") = Some (ref constsobj) /\ h' constsobj n_dict_content = Some (PDict (skeys [])).
+  Proof.
+    intros Hs Hgood C Hfree. unfold StructMeta_new__set_attr__constants, ref. cbn [dv_setattr_newdict]. rewrite pystr_eqb_refl.
+    fold constsobj. rewrite Hfree. cbn [bind]. fold (ref constsobj).
+    eexists. split; [reflexivity|]. split; [|split].
+    - apply (cheap_set_late mro ms an _ (s2p "_constants") _ Hs Hgood); [cbn; tauto|].
+      destruct C as [M Hann Hget]. constructor.
+      + apply (mheap_transfer _ _ _ h); [| | |exact M].
+        * intros o a Ha Hne. apply heap_set_other_attr. intro; subst a. rewrite pystr_eqb_refl in Hne. discriminate.
+        * intros o Hp. apply heap_set_other_obj. intro; subst o. rewrite constsobj_plain in Hp. discriminate.
+        * intros x kx a Hk Hin. apply heap_set_other_obj. intro; subst x.
+          rewrite find_klass_kc in Hk. destruct (pystr_eqb c constsobj) eqn:E; [apply pystr_eqb_spec in E; symmetry in E; exact (constsobj_not_c E)|].
+          congruence.
+      + rewrite heap_set_other_obj by (intro E; symmetry in E; exact (constsobj_not_c E)). exact Hann.
+      + intros n v Hg. rewrite heap_set_other_obj by (intro E; symmetry in E; exact (constsobj_not_c E)). apply Hget. exact Hg.
+    - rewrite heap_set_same. reflexivity.
+    - rewrite heap_set_other_obj by exact constsobj_not_c. rewrite heap_set_same. reflexivity.
   Qed.
 End NewIsDefine.
